@@ -182,6 +182,12 @@ def corpus_cases():
     yield C(max_headers=6), b"GET / HTTP/1.1\r\nHost: x\r\nA: 1\r\nB: 2\r\nC: 3\r\n\r\n", "exactly-max-headers"
     yield C(response=True, lax=True), b"HTTP/1.1 200 OK\r\nTransfer-Encoding: chunked\r\n\r\n3\r\nabc\r\n0\n\rX: y\r\n\r\n", "lax-lfcr-before-trailer"
     yield C(response=True, lax=True), b"HTTP/1.1 200 OK\nTransfer-Encoding: chunked\n\n3\nabc\n\r0\n\r\n", "lax-lfcr-2"
+    # an Upgrade request that carries a body, followed by bytes of the upgraded protocol: the switch takes effect when
+    # the body ends, wherever the reads are cut
+    yield C(), b"POST /up HTTP/1.1\r\nHost: a\r\nConnection: Upgrade\r\nUpgrade: websocket\r\nContent-Length: 3\r\n\r\nabc\x81\x05hello", "upgrade-with-cl-body"
+    yield C(), b"POST /up HTTP/1.1\r\nHost: a\r\nConnection: upgrade\r\nUpgrade: websocket\r\nTransfer-Encoding: chunked\r\n\r\n3\r\nabc\r\n0\r\n\r\nGET /x HTTP/1.1\r\n\r\n", "upgrade-with-chunked-body"
+    yield C(), b"CONNECT h:443 HTTP/1.1\r\nHost: h:443\r\n\r\n\x16\x03\x01raw-tunnel-bytes\r\n\r\n", "connect-with-tail"
+    yield C(response=True, lax=True), b"HTTP/1.1 101 Switching Protocols\r\nConnection: upgrade\r\nUpgrade: websocket\r\n\r\n\x81\x02hi", "resp-101-with-tail"
     # a stray CRLF behind the body of a message that closes the connection (old clients): empty lines are skipped
     yield C(), b"POST /f HTTP/1.1\r\nHost: a\r\nConnection: close\r\nContent-Length: 3\r\n\r\nabc\r\n", "close-cl-stray-crlf"
     yield C(), b"POST /f HTTP/1.1\r\nHost: a\r\nConnection: close\r\nTransfer-Encoding: chunked\r\n\r\n3\r\nabc\r\n0\r\n\r\n\r\n", "close-chunked-stray-crlf"
